@@ -1010,12 +1010,20 @@ Definition q_mem (mode : ts_mode) (om : opt_mode) (m : list (pv * mem_entry)) (w
 Definition q_fs (mode : ts_mode) (om : opt_mode) (t : fs) (wrap : bool) (q att comp : list flt) : res (list pv) :=
   if wrap then comp_query mode om [SFs t att] comp q [] else fs_query mode om t q att [].
 Definition show3 (mode : ts_mode) (om : opt_mode) (pop : list pv) (m : list (pv * mem_entry)) (t : fs) (ma : list (pv * mem_entry)) (tb : fs)
-           (wrap : bool) (q att comp : list flt) : string :=
+           (wrap : bool) (q att att2 comp : list flt) : string :=
   String.concat " ## "
     [show_result_ix pop (q_mem mode om m wrap q att comp);
      show_result_ix pop (q_fs mode om t wrap q att comp);
-     show_result_ix pop (comp_query mode om [SMem ma att; SFs tb att] comp q []);
-     show_bool (order_known om (complete_query q att (if wrap then fset_add (fset_add [] comp) [] else [])))].
+     show_result_ix pop (comp_query mode om [SMem ma att; SFs tb att2] comp q []);
+     show_bool (order_known om (complete_query q att (if wrap then fset_add (fset_add [] comp) [] else [])) &&
+                order_known om (complete_query q att2 (fset_add (fset_add [] comp) [])))].
+
+(* a store that lives through a history: the memory store and the filesystem store after the adds so far *)
+Definition show_grow (mode : ts_mode) (om : opt_mode) (pop : list pv) (m : list (pv * mem_entry)) (t : fs) (q : list flt) : string :=
+  String.concat " ## "
+    [show_result_ix pop (mem_query mode m q [] []);
+     show_result_ix pop (fs_query mode om t q [] []);
+     show_bool (order_known om (complete_query q [] []))].
 
 (* all_versions(id): memory source and filesystem source with `att` attached; the same two wrapped in a
    CompositeDataSource that carries `comp`; the two-member composite.  One result line. *)
